@@ -1,6 +1,8 @@
 import NmlVerif.Gen.Skeletons
 import NmlVerif.Model.Trunc
+import NmlVerif.Model.TruncWs
 import NmlVerif.DrvCommon
+import Std.Data.HashSet
 /-!
 Line-protocol driver for C08.
 
@@ -8,12 +10,19 @@ Line-protocol driver for C08.
       -> {"entries":[{"id":3,"issues":[["mutateNoRestore",2], ...]}, ...]}
   {"op":"trunc","tokens":[[kind,tag],...],"cuts":[[k,inside],...]}   kind 0 `<t>` 1 `</t>` 2 `<t/>` 3 text
       -> {"whole":bool,"complete":[bool,...]}   `Complete (cutTokens tokens k inside)` for each cut
+  {"op":"truncws","tree":T,"trail":n,"tokens":[[kind,tag],...],"cuts":[[k,rest],...]}
+      T = [0,tag,[T,...]] element with children | [1,tag] empty element | [2] character data | [3] white space;
+      kind 0 `<t>` 1 `</t>` 2 `<t/>` 3 character data 4 white space; rest 0 boundary 1 markup 2 chars 3 blank
+      -> {"layout":bool,"element":bool,"ntok":n,"whole":bool,"complete":[bool,...]}
+         layout: the file's token stream IS `tokens T ++ trail n` (the serialiser of Model/TruncWs.lean);
+         complete: `Complete (cut stream k rest)` for each cut
   {"op":"run","entry":2,"trace":[[site,eff],...],"natural":null | [site,kind],"faults":[[k,kind],...]}
       `trace` = the file-layer calls the real library made in a fault-free run (or, with `natural`, up to the
       point where the library raised by itself at `site` with exception class `kind`; or, with "prefix":true,
       up to and including a call in which the file layer itself raised).
-      The driver searches an oracle under which `run` on the extracted skeleton makes exactly these calls
-      (search is untrusted; the result is checked by running the verified model function), then runs the model
+      The driver computes an oracle under which `run` on the extracted skeleton makes exactly these calls
+      (`reach`: complete and deterministic, no step budget; the search is untrusted, the result is checked by
+      running the verified model function), then runs the model
       with the fault injected at each requested call.
       -> {"matched":true,"clean":R,"faults":[R,...]}   R = {"outcome","kind","handles","detached","fired","trace"}
 -/
@@ -21,126 +30,182 @@ open Lean NmlVerif.Fault Drv
 
 abbrev Ev := List (Nat × Nat)
 
-structure MS where
-  tr : List (Nat × Nat)
-  done : Bool
-  returned : Bool
+/-- how a fault-free path through a statement can end for the matcher: normally, by `return`, or `done` = the
+    recorded trace is used up at a point where the run stops being fault-free (the library raised by itself
+    there, or — prefix mode — the file layer raised inside the last recorded call) -/
+inductive MO where
+  | ok | ret | done
+deriving BEq, DecidableEq
+
+/-- one way to reach trace position `j`, ending with `o`, under the oracle events `ev` (most recent first);
+    `stack`: for every loop being iterated, the events before the loop and the number of completed iterations -/
+structure R where
+  j : Nat
+  o : MO
   ev : Ev
+  stack : List (Ev × Nat) := []
 
-/-- symbols a statement can start with on its fault-free path (a raise of its own is the symbol `(site, 99)`) -/
-partial def first : Stmt → List (Nat × Nat)
-  | .call e site => [(site, e.code)]
-  | .raise_ _ site => [(site, 99)]
-  | .mayRaise _ site => [(site, 99)]
-  | .mutate _ site => [(site, 8)]
-  | .seq a b => if nullable a then first a ++ first b else first a
-  | .loop _ b => first b
-  | .choice _ a b => first a ++ first b
-  | .tryFinally _ body fin => if nullable body then first body ++ first fin else first body
-  | .tryExcept _ body _ _ _ => first body
-  | .scope b => first b
-  | _ => []
-where
-  nullable : Stmt → Bool
-    | .call _ _ => false
-    | .raise_ _ _ => false
-    | .reraise _ => false
-    | .mutate _ _ => false
-    | .seq a b => nullable a && nullable b
-    | .choice _ a b => nullable a || nullable b
-    | .tryFinally _ body fin => nullable body && nullable fin
-    | .tryExcept _ body _ _ _ => nullable body
-    | .scope b => nullable b
-    | _ => true
+def addR (rs : Array R) (r : R) : Array R :=
+  if rs.any (fun x => x.j == r.j && x.o == r.o) then rs else rs.push r
 
-def viable (s : Stmt) (next : Option (Nat × Nat)) : Bool :=
-  match next with
-  | none => first.nullable s
-  | some x => first.nullable s || (first s).contains x
+def dedup (rs : Array R) : Array R := if rs.size ≤ 1 then rs else rs.foldl addR #[]
 
-abbrev M := StateM Nat
+def pushEv (e : Nat × Nat) (F : Array R) : Array R := F.map (fun f => { f with ev := e :: f.ev })
 
-def orElseM (x : M (Option Ev)) (y : Unit → M (Option Ev)) : M (Option Ev) := do
-  match ← x with
-  | some r => return some r
-  | none => y ()
+def openLoop (r : R) : R := { r with ev := [], stack := (r.ev, 0) :: r.stack }
+def tickLoop (r : R) : R :=
+  match r.stack with
+  | (sv, n) :: st => { r with stack := (sv, n + 1) :: st }
+  | [] => r
+/-- leaving loop `oid`: its iteration count goes *before* the events of its iterations (`run` pops it first);
+    `extra` = 1 when the current iteration left the loop by return/raise -/
+def closeLoop (oid extra : Nat) (r : R) : R :=
+  match r.stack with
+  | (sv, n) :: st => { r with ev := r.ev ++ ((oid, n + extra) :: sv), stack := st }
+  | [] => r
 
-/-- backtracking matcher with one symbol of look-ahead and a global step budget: find oracle events under
-    which the skeleton's fault-free path makes the calls `tr` (the last symbol `(site, 99)` = the library raises
-    by itself at `site`; `pre` = stop as soon as the trace is used up). -/
-partial def matchS (natKind : Nat) (pre : Bool) : Stmt → MS → (MS → M (Option Ev)) → M (Option Ev)
-  | s, m, k => do
-    let fuel ← get
-    if fuel == 0 then return none
-    set (fuel - 1)
-    if m.done || m.returned then k m   -- skipping to the end of the enclosing scope / of the run
-    else
-    match s with
-    | .skip => k m
-    | .call e site =>
-      match m.tr with
-      | (t, c) :: r =>
-        if t == site && c == e.code then k { m with tr := r, done := pre && r.isEmpty } else return none
-      | [] => return none
-    | .raise_ _ site =>
-      match m.tr with
-      | [(t, 99)] => if t == site then k { m with tr := [], done := true } else return none
-      | _ => return none
-    | .reraise _ => return none
-    | .mayRaise oid site =>
-      match m.tr with
-      | [(t, 99)] =>
-        if t == site then
-          orElseM (k { m with tr := [], done := true, ev := (oid, natKind + 1) :: m.ev })
-            (fun _ => k { m with ev := (oid, 0) :: m.ev })
-        else k { m with ev := (oid, 0) :: m.ev }
-      | _ => k { m with ev := (oid, 0) :: m.ev }
-    | .mutate _ site =>
-      match m.tr with
-      | (t, c) :: r => if t == site && c == 8 then k { m with tr := r } else return none
-      | [] => return none
-    | .restore _ => k m
-    | .seq a b => matchS natKind pre a m (fun m' => matchS natKind pre b m' k)
-    | .loop oid b =>
-      let rec go (n : Nat) (m : MS) : M (Option Ev) :=
-        let iterate : M (Option Ev) :=
-          match m.tr.head? with
-          | some x =>
-            if (first b).contains x then
-              matchS natKind pre b m (fun m' =>
-                if m'.done || m'.returned then k { m' with ev := (oid, n + 1) :: m'.ev }
-                else if m'.tr.length < m.tr.length then go (n + 1) m' else return none)
-            else return none
-          | none => return none
-        orElseM iterate (fun _ => k { m with ev := (oid, n) :: m.ev })
-      go 0 m
-    | .choice oid a b =>
-      let nx := m.tr.head?
-      let ta : Unit → M (Option Ev) := fun _ =>
-        if viable a nx then matchS natKind pre a { m with ev := (oid, 1) :: m.ev } k else return none
-      let tb : Unit → M (Option Ev) := fun _ =>
-        if viable b nx then matchS natKind pre b { m with ev := (oid, 0) :: m.ev } k else return none
-      -- prefer the branch that can consume the next symbol
-      if (match nx with | some x => !(first a).contains x && (first b).contains x | none => false) then
-        orElseM (tb ()) ta
-      else orElseM (ta ()) tb
-    | .tryFinally _ body fin =>
-      matchS natKind pre body m (fun m' =>
-        if m'.done then k m' else
-          let r := m'.returned
-          matchS natKind pre fin { m' with returned := false }
-            (fun m'' => k { m'' with returned := r || m''.returned }))
-    | .tryExcept _ body _ _ _ => matchS natKind pre body m k
-    | .scope b => matchS natKind pre b m (fun m' => k { m' with returned := false })
-    | .ret => k { m with returned := true }
-    | .unsupported _ => k m
+/-- `natKind` value meaning "the trace holds no raise of the library's own" -/
+def NONAT : Nat := 4000000000
 
-def findOracle (s : Stmt) (tr : List (Nat × Nat)) (nat : Option (Nat × Nat)) (pre : Bool) : Option Ev :=
-  let tr' := match nat with | some (site, _) => tr ++ [(site, 99)] | none => tr
-  let natKind := match nat with | some (_, kd) => kd | none => 0
-  let fin : MS → M (Option Ev) := fun m =>
-    return (if m.tr.isEmpty && ((nat.isNone && !pre) || m.done) then some m.ev.reverse else none)
-  ((matchS natKind pre s { tr := tr', done := false, returned := false, ev := [] } fin).run 300000).1
+/-- what the matcher needs to know about a statement without walking it: the symbols it can record first, and
+    one way (oracle events, most recent first) to get through it recording nothing, ending normally / by `return` -/
+abbrev SymSet := Std.HashSet Nat
+def symKey (p : Nat × Nat) : Nat := p.1 * 128 + p.2
+def SymSet.has (s : SymSet) (p : Nat × Nat) : Bool := s.contains (symKey p)
+def symOf (p : Nat × Nat) : SymSet := (∅ : SymSet).insert (symKey p)
+
+structure Info where
+  first : SymSet
+  sOk : Option Ev
+  sRet : Option Ev
+
+/-- a skeleton annotated (once per driver process) with `Info` at every node -/
+inductive A where
+  | leaf (s : Stmt) (i : Info)
+  | seq (a b : A) (i : Info)
+  | loop (oid : Nat) (b : A) (i : Info)
+  | choice (oid : Nat) (a b : A) (i : Info)
+  | tryFinally (body fin : A) (i : Info)
+  | scope (b : A) (i : Info)
+
+instance : Inhabited A := ⟨.leaf .skip ⟨∅, none, none⟩⟩
+
+def A.info : A → Info
+  | .leaf _ i | .seq _ _ i | .loop _ _ i | .choice _ _ _ i | .tryFinally _ _ i | .scope _ i => i
+
+def unionSym (x y : SymSet) : SymSet :=
+  if x.size ≤ y.size then x.fold (fun acc p => acc.insert p) y else y.fold (fun acc p => acc.insert p) x
+
+def thenEv (ea : Option Ev) (eb : Option Ev) : Option Ev :=
+  match ea, eb with
+  | some a, some b => some (b ++ a)
+  | _, _ => none
+
+/-- `zeros`: record the "does not raise" outcome of every `mayRaise` (needed only when the trace ends in a raise
+    of the library's own) -/
+partial def annotate (zeros : Bool) : Stmt → A
+  | .seq a b =>
+    let x := annotate zeros a; let y := annotate zeros b
+    let ix := x.info; let iy := y.info
+    .seq x y ⟨if ix.sOk.isSome then unionSym ix.first iy.first else ix.first, thenEv ix.sOk iy.sOk,
+      ix.sRet <|> thenEv ix.sOk iy.sRet⟩
+  | .loop oid b =>
+    let x := annotate zeros b
+    .loop oid x ⟨x.info.first, some [(oid, 0)], x.info.sRet.map (· ++ [(oid, 1)])⟩
+  | .choice oid a b =>
+    let x := annotate zeros a; let y := annotate zeros b
+    .choice oid x y ⟨unionSym x.info.first y.info.first,
+      (y.info.sOk.map (· ++ [(oid, 0)])) <|> (x.info.sOk.map (· ++ [(oid, 1)])),
+      (y.info.sRet.map (· ++ [(oid, 0)])) <|> (x.info.sRet.map (· ++ [(oid, 1)]))⟩
+  | .tryFinally _ body fin =>
+    let x := annotate zeros body; let y := annotate zeros fin
+    let ix := x.info; let iy := y.info
+    .tryFinally x y ⟨if ix.sOk.isSome || ix.sRet.isSome then unionSym ix.first iy.first else ix.first,
+      thenEv ix.sOk iy.sOk, thenEv ix.sRet iy.sOk <|> thenEv ix.sOk iy.sRet <|> thenEv ix.sRet iy.sRet⟩
+  | .tryExcept _ body _ _ _ => annotate zeros body
+  | .scope b =>
+    let x := annotate zeros b
+    .scope x ⟨x.info.first, x.info.sOk <|> x.info.sRet, none⟩
+  | .call e site => .leaf (.call e site) ⟨symOf (site, e.code), none, none⟩
+  | .raise_ k site => .leaf (.raise_ k site) ⟨symOf (site, 99), none, none⟩
+  | .reraise site => .leaf (.reraise site) ⟨∅, none, none⟩
+  | .mayRaise oid site => .leaf (.mayRaise oid site) ⟨symOf (site, 99), some (if zeros then [(oid, 0)] else []), none⟩
+  | .mutate f site => .leaf (.mutate f site) ⟨symOf (site, 8), none, none⟩
+  | .ret => .leaf .ret ⟨∅, none, some []⟩
+  | s => .leaf s ⟨∅, some [], none⟩          -- skip, restore, unsupported
+
+/-- **Complete, deterministic matcher.**  `reach tr natKind pre a F`: `F` = a set of trace positions reached so
+    far on the fault-free path (each with one witness: the oracle events used); result = every (position, way
+    of ending) reachable by running `a` from one of them while making exactly the recorded calls.  This is the
+    subset construction (a simulation of all paths at once): sets are deduplicated on (position, ending), so
+    every statement is visited at most once per enclosing visit, a loop body at most once per trace position;
+    a state whose next recorded call cannot be made first by the statement takes the statement's precomputed
+    silent path without walking it.  There is no step budget and no backtracking.  A loop iteration that records
+    nothing and ends normally is equivalent to no iteration and is dropped, hence loops terminate.  The search
+    is untrusted: the oracle found is re-run through the verified `run`. -/
+partial def reach (tr : Array (Nat × Nat)) (natKind : Nat) (pre : Bool) (a : A) (F : Array R) : Array R :=
+  if F.isEmpty then #[] else
+  let i := a.info
+  let act := F.filter (fun f => f.j < tr.size && i.first.has tr[f.j]!)
+  let pas := F.filter (fun f => !(f.j < tr.size && i.first.has tr[f.j]!))
+  let pasOk := match i.sOk with
+    | some w => pas.map (fun f => { f with ev := w ++ f.ev })
+    | none => #[]
+  let pasRet := match i.sRet with
+    | some w => pas.map (fun f => { f with o := .ret, ev := w ++ f.ev })
+    | none => #[]
+  let full : Array R :=
+    if act.isEmpty then #[] else
+    match a with
+    | .leaf s _ =>
+      match s with
+      | .call e site =>
+        act.filterMap fun f =>
+          if tr[f.j]! == (site, e.code) then
+            some { f with j := f.j + 1, o := if pre && f.j + 1 == tr.size then .done else .ok } else none
+      | .raise_ _ site =>
+        act.filterMap fun f =>
+          if f.j + 1 == tr.size && tr[f.j]! == (site, 99) then some { f with j := f.j + 1, o := .done } else none
+      | .mayRaise oid site =>
+        act.flatMap fun f =>
+          if f.j + 1 == tr.size && tr[f.j]! == (site, 99) then
+            #[{ f with j := f.j + 1, o := .done, ev := (oid, natKind + 1) :: f.ev }, { f with ev := (oid, 0) :: f.ev }]
+          else #[{ f with ev := (oid, 0) :: f.ev }]
+      | .mutate _ site => act.filterMap fun f => if tr[f.j]! == (site, 8) then some { f with j := f.j + 1 } else none
+      | _ => #[]
+    | .seq x y _ =>
+      let ra := reach tr natKind pre x act
+      ra.filter (·.o != .ok) ++ reach tr natKind pre y (ra.filter (·.o == .ok))
+    | .loop oid b _ =>
+      let rec go (frontier : Array R) (seen : Array Nat) (acc : Array R) : Array R :=
+        if frontier.isEmpty then acc else
+        let acc := frontier.foldl (fun acc f => addR acc (closeLoop oid 0 f)) acc
+        -- only states whose next recorded call can start an iteration iterate (a silent iteration = none)
+        let movers := frontier.filter (fun f => f.j < tr.size && b.info.first.has tr[f.j]!)
+        let rb := reach tr natKind pre b movers
+        let acc := (rb.filter (·.o != .ok)).foldl (fun acc r => addR acc (closeLoop oid 1 r)) acc
+        let (next, seen) := (rb.filter (·.o == .ok)).foldl (fun (st : Array R × Array Nat) r =>
+          if st.2.contains r.j then st else (st.1.push (tickLoop r), st.2.push r.j)) (#[], seen)
+        go next seen acc
+      go (act.map openLoop) (act.map (·.j)) #[]
+    | .choice oid x y _ =>
+      reach tr natKind pre x (pushEv (oid, 1) act) ++ reach tr natKind pre y (pushEv (oid, 0) act)
+    | .tryFinally body fin _ =>
+      let rb := reach tr natKind pre body act
+      let asOk (x : Array R) : Array R := x.map (fun r => { r with o := .ok })
+      let fOk := reach tr natKind pre fin (rb.filter (·.o == .ok))
+      let fRet := (reach tr natKind pre fin (asOk (rb.filter (·.o == .ret)))).map
+        (fun r => if r.o == .ok then { r with o := .ret } else r)
+      rb.filter (·.o == .done) ++ fOk ++ fRet
+    | .scope b _ => (reach tr natKind pre b act).map (fun r => if r.o == .ret then { r with o := .ok } else r)
+  dedup (pasOk ++ pasRet ++ full)
+
+def findOracle (s : A × A) (tr : List (Nat × Nat)) (nat : Option (Nat × Nat)) (pre : Bool) : Option Ev :=
+  let tr' := (match nat with | some (site, _) => tr ++ [(site, 99)] | none => tr).toArray
+  let natKind := match nat with | some (_, kd) => kd | none => NONAT
+  let rs := reach tr' natKind pre (if nat.isSome then s.2 else s.1) #[⟨0, .ok, [], []⟩]
+  let want (r : R) : Bool := r.j == tr'.size && (if nat.isSome || pre then r.o == .done else r.o != .done)
+  (rs.find? want).map (fun r => r.ev.reverse)
 
 def oracleOfEv (ev : Ev) : Nat → List Nat := fun oid => (ev.filter (fun p => p.1 == oid)).map (·.2)
 
@@ -160,8 +225,41 @@ def tokOf (p : Nat × Nat) : NmlVerif.Trunc.Tok :=
   match p.1 with
   | 0 => .op p.2 | 1 => .cl p.2 | 2 => .empty p.2 | _ => .text
 
-def handle (j : Json) : Json :=
+/-- (entry id, skeleton, annotated without / with `mayRaise` zeros) -/
+abbrev Tbl := List (Nat × Stmt × Thunk (A × A))
+
+instance : Inhabited NmlVerif.TruncWs.Tree := ⟨.ws⟩
+
+partial def treeOf (j : Json) : NmlVerif.TruncWs.Tree :=
+  match j with
+  | .arr a =>
+    match (a[0]?.bind (·.getNat?.toOption)).getD 3 with
+    | 0 => .node ((a[1]?.bind (·.getNat?.toOption)).getD 0)
+        (match (a[2]? : Option Json) with | some (Json.arr ks) => ks.toList.map treeOf | _ => [])
+    | 1 => .leaf ((a[1]?.bind (·.getNat?.toOption)).getD 0)
+    | 2 => .text
+    | _ => .ws
+  | _ => .ws
+
+def tokWs (p : Nat × Nat) : NmlVerif.TruncWs.Tok :=
+  match p.1 with
+  | 0 => .op p.2 | 1 => .cl p.2 | 2 => .empty p.2 | 3 => .text | _ => .ws
+
+def restOf : Nat → NmlVerif.TruncWs.Rest
+  | 0 => .boundary | 1 => .markup | 2 => .chars | _ => .blank
+
+def handle (tbl : Tbl) (j : Json) : Json :=
   match getStr j "op" with
+  | "truncws" =>
+    let t := treeOf (getObj j "tree")
+    let n := getNat j "trail"
+    let stream := NmlVerif.TruncWs.tokens t ++ NmlVerif.TruncWs.trail n
+    let sent := (pairList (getObj j "tokens")).map tokWs
+    let cuts := pairList (getObj j "cuts")
+    Json.mkObj [("layout", decide (stream = sent)), ("element", t.isElement),
+      ("ntok", (NmlVerif.TruncWs.tokens t).length), ("whole", decide (NmlVerif.TruncWs.Complete stream)),
+      ("complete", Json.arr (cuts.map (fun (k, r) =>
+        Json.bool (decide (NmlVerif.TruncWs.Complete (NmlVerif.TruncWs.cut stream k (restOf r)))))).toArray)]
   | "trunc" =>
     let toks := (pairList (getObj j "tokens")).map tokOf
     let cuts := pairList (getObj j "cuts")
@@ -174,12 +272,13 @@ def handle (j : Json) : Json :=
         Json.arr #[Json.str u.1.name, u.2])).toArray)])).toArray)]
   | _ =>
     let eid := getNat j "entry"
-    match NmlVerif.Gen.Skeletons.skeletons.lookup eid with
+    match tbl.lookup eid with
     | none => Json.mkObj [("error", "unknown entry")]
-    | some s =>
+    | some (s, anT) =>
+      let an := anT.get
       let tr := pairList (getObj j "trace")
       let nat : Option (Nat × Nat) := match natList (getObj j "natural") with | [a, b] => some (a, b) | _ => none
-      match findOracle s tr nat (getBool j "prefix") with
+      match findOracle an tr nat (getBool j "prefix") with
       | none => Json.mkObj [("matched", false)]
       | some ev =>
         let orc := oracleOfEv ev
@@ -188,4 +287,7 @@ def handle (j : Json) : Json :=
         Json.mkObj [("matched", true), ("clean", resJ clean), ("faults", Json.arr faults.toArray),
           ("oracle", Json.arr (ev.map (fun p => Json.arr #[p.1, p.2])).toArray)]
 
-def main : IO Unit := loop handle
+def main : IO Unit :=
+  let tbl : Tbl := NmlVerif.Gen.Skeletons.skeletons.map
+    (fun e => (e.1, e.2, Thunk.mk fun _ => (annotate false e.2, annotate true e.2)))
+  loop (handle tbl)
